@@ -9,6 +9,7 @@ cd "$(dirname "$0")"
 /venv/bin/python harness/py2coq_io.py "${VERIF_REPO:-/repo}/tinyflux/storages.py" coq/gen/IOGen.v || true
 /venv/bin/python harness/py2coq_handle.py "${VERIF_REPO:-/repo}/tinyflux" coq/gen/HandleGen.v || true
 /venv/bin/python harness/py2coq_codec.py "${VERIF_REPO:-/repo}/tinyflux/point.py" coq/gen/CodecGen.v || true
+/venv/bin/python harness/py2coq_decode.py "${VERIF_REPO:-/repo}/tinyflux/point.py" coq/gen/DecodeGen.v || true
 /venv/bin/python harness/py2coq_valid.py "${VERIF_REPO:-/repo}/tinyflux/point.py" coq/gen/ValidGen.v || true
 cd coq
 coq_makefile -f _CoqProject -o Makefile
